@@ -27,9 +27,14 @@ import (
 //	garbage         write a correct prefix followed by bytes that are not a protobuf message
 //	cut   m k len   write only the first k bytes (0 <= k <= len) of the response for name m
 //	exit  code      return from the client function (code 0: nil, otherwise an error)
+//	hang            do nothing until the harness releases the client (which it does once the reader
+//	                goroutine of the runner has finished and isRunning() was sampled)
 //
 // When the runner aborts the client (context cancelled) the client stops at its next or
-// current blocking operation and exits with an error.
+// current blocking operation and exits with an error.  A client whose script contains a hang
+// lingers: until it is released it ignores the abort altogether (a wedged in-process client, an
+// OS process that is slow to die) — the runner must not wait for the process to go away before it
+// reports the client as no longer running.
 type VerifC10Act struct {
 	K    string `json:"k"`
 	M    int    `json:"m,omitempty"`
@@ -50,9 +55,16 @@ type VerifC10Spec struct {
 // the return of waitForResponses, isRunning afterwards, and the fate of a later send.
 type VerifC10Obs struct {
 	Rets    []string `json:"rets"`    // ok | closed | dup | fail | unsent
-	Cbs     [][]int  `json:"cbs"`     // per request: sorted list; m >= 0 response named m, -1 error, -2 response with foreign name
-	Wait    string   `json:"wait"`    // nil | closed | proc | fail | hang
-	Running bool     `json:"running"` // isRunning() once waitForResponses has returned (polled up to 0.5s for false)
+	// Cbs per request: sorted list; m >= 0 response named m, -2 response with foreign name; an error
+	// callback is -1 / -3 when the error is the reader's reason for giving up (failure of the output
+	// stream) and isRunning(), sampled inside the callback, was false / true; -4 / -5 when the error is
+	// errNoOutcome (clean end of the output stream) and isRunning() was false / true
+	Cbs [][]int `json:"cbs"`
+	// RunAtDone: isRunning() sampled as soon as the reader goroutine had finished (c.done closed,
+	// the first thing waitForResponses waits for), while a lingering client is still there
+	RunAtDone bool   `json:"runAtDone"`
+	Wait      string `json:"wait"` // nil | closed | proc | fail | hang
+	Running bool     `json:"running"` // isRunning() once waitForResponses has returned (polled up to 2 s for false)
 	Late    string   `json:"late"`    // return of a sendRequest issued after everything
 	LateCbs int      `json:"lateCbs"` // callbacks of that late request
 	Hang    string   `json:"hang,omitempty"`
@@ -94,19 +106,38 @@ func VerifC10MaxClientResponseSize() int { return maxClientResponseSize }
 var errVerifC10Exit = errors.New("verif scripted client exit 1")
 var errVerifC10Aborted = errors.New("verif scripted client aborted")
 
-func verifC10Client(script []VerifC10Act) func(ctx context.Context, _ []string, in io.ReadCloser, out, _ io.WriteCloser) error {
+func verifC10Client(script []VerifC10Act, release <-chan struct{}) func(ctx context.Context, _ []string, in io.ReadCloser, out, _ io.WriteCloser) error {
+	lingers := false
+	for _, act := range script {
+		if act.K == "hang" {
+			lingers = true
+		}
+	}
 	return func(ctx context.Context, _ []string, in io.ReadCloser, out, _ io.WriteCloser) error {
-		// every blocking pipe operation can be interrupted by the runner's abort
+		// every blocking pipe operation can be interrupted by the runner's abort — which a
+		// lingering client only notices once it has been released
+		cancelled := ctx.Done()
+		if lingers {
+			ch := make(chan struct{})
+			go func() {
+				<-release
+				<-ctx.Done()
+				close(ch)
+			}()
+			cancelled = ch
+		}
 		do := func(f func() error) error {
-			if ctx.Err() != nil {
+			select {
+			case <-cancelled:
 				return errVerifC10Aborted
+			default:
 			}
 			ch := make(chan error, 1)
 			go func() { ch <- f() }()
 			select {
 			case err := <-ch:
 				return err
-			case <-ctx.Done():
+			case <-cancelled:
 				return errVerifC10Aborted
 			}
 		}
@@ -174,6 +205,8 @@ func verifC10Client(script []VerifC10Act) func(ctx context.Context, _ []string, 
 					return errVerifC10Exit
 				}
 				return nil
+			case "hang":
+				<-release
 			default:
 				panic("c10: unknown client action " + act.K)
 			}
@@ -205,7 +238,11 @@ func VerifC10Run(spec VerifC10Spec) VerifC10Obs {
 	}
 	ctx, cancel := context.WithCancel(context.Background())
 	defer cancel()
-	runner, err := runClient(ctx, runInProcess([]string{"verif-client"}, verifC10Client(spec.Client)))
+	release := make(chan struct{})
+	var releaseOnce sync.Once
+	doRelease := func() { releaseOnce.Do(func() { close(release) }) }
+	defer doRelease()
+	runner, err := runClient(ctx, runInProcess([]string{"verif-client"}, verifC10Client(spec.Client, release)))
 	if err != nil {
 		obs.Hang = "runClient: " + err.Error()
 		return obs
@@ -217,6 +254,19 @@ func VerifC10Run(spec VerifC10Spec) VerifC10Obs {
 		want := VerifC10Name(spec.Names[i])
 		return func(name string, resp *conformancev1.ClientCompatResponse, err error) {
 			v := -1
+			if err != nil {
+				// "the runner reports the client as no longer running": sampled at the moment the
+				// failure is reported to this request
+				running := runner.isRunning()
+				switch {
+				case errors.Is(err, errNoOutcome) && running:
+					v = -5
+				case errors.Is(err, errNoOutcome):
+					v = -4
+				case running:
+					v = -3
+				}
+			}
 			if err == nil {
 				v = -2
 				if resp != nil && name == want && resp.GetTestName() == name {
@@ -266,6 +316,21 @@ func VerifC10Run(spec VerifC10Spec) VerifC10Obs {
 		return snap
 	}
 	runner.closeSend()
+	// the reader goroutine finishes whatever the client process does afterwards (a lingering client
+	// is released only now)
+	if cr, ok := runner.(*clientProcessRunner); ok {
+		select {
+		case <-cr.done:
+		case <-time.After(10 * time.Second):
+			mu.Lock()
+			defer mu.Unlock()
+			obs.Hang = "the output reader (consumeOutput)"
+			obs.Wait = "hang"
+			return obs
+		}
+	}
+	obs.RunAtDone = runner.isRunning()
+	doRelease()
 	waitCh := make(chan error, 1)
 	go func() { waitCh <- runner.waitForResponses() }()
 	select {
@@ -288,7 +353,7 @@ func VerifC10Run(spec VerifC10Spec) VerifC10Obs {
 		return obs
 	}
 	// the process-exit notification runs in its own goroutine: give it time
-	deadline := time.Now().Add(500 * time.Millisecond)
+	deadline := time.Now().Add(2 * time.Second)
 	for runner.isRunning() && time.Now().Before(deadline) {
 		time.Sleep(200 * time.Microsecond)
 	}
